@@ -108,10 +108,20 @@ Definition lookup_z (tbl : list tok) (k : Z) : Z :=
 
 Definition bit (b : bool) (w : Z) : Z := if b then w else 0.
 
+Definition encode_event (e : event V) : list Z :=
+  match e with
+  | EEnter id a => 0 :: id :: Z.of_nat (length a) :: a
+  | EExit id r => 1 :: id :: Z.of_nat (length r) :: r
+  | ECore tag a => 2 :: tag :: Z.of_nat (length a) :: a
+  | ERet tag r => 3 :: tag :: Z.of_nat (length r) :: r
+  end.
+Definition encode_outcome (o : outcome V) : list Z :=
+  flat_map encode_event (fst o) ++ [-7] ++ match snd o with Some r => 1 :: r | None => [0] end.
+
 Definition dummy_handler : handler V := fun _ => ([], None).
 
 (* ---- RPC ---- *)
-Definition judge_rpc (f : list tok) : Z :=
+Definition judge_rpc (explain : bool) (f : list tok) : list Z :=
   let nin := nat_of (nth_tok 1 f) in
   let nret := nat_of (nth_tok 2 f) in
   let oneway := as_int (nth_tok 3 f) =? 1 in
@@ -144,14 +154,15 @@ Definition judge_rpc (f : list tok) : Z :=
   let wrote := in_place cctor_s (snd (go_append h3 cctor_s (get_middleware h3 prov_s))) in
   let wres := wire_results oneway (Z.eqb 0) 0 zero (lookup_z werr) in
   let o := rpc nin nret (fun a => a) wres client_method proc_method (fun _ => hres) args in
+  if explain then encode_outcome o else
   if outcome_eqb o (nth_tok 18 f) (as_int (nth_tok 19 f)) (nth_tok 20 f)
-  then bit (is_panic o) 2 + bit wrote 4 + bit (negb (length poison =? 0)%nat) 8
+  then [bit (is_panic o) 2 + bit wrote 4 + bit (negb (length poison =? 0)%nat) 8
        + bit (rewrites (nth_tok 5 f) || rewrites (nth_tok 7 f) || rewrites (nth_tok 9 f) || rewrites (nth_tok 11 f)) 32
-       + bit (negb (level =? 0)%nat) 128
-  else -1.
+       + bit (negb (level =? 0)%nat) 128]
+  else [-1].
 
 (* ---- pub/sub ---- *)
-Definition judge_pubsub (f : list tok) : Z :=
+Definition judge_pubsub (explain : bool) (f : list tok) : list Z :=
   let nvars := nat_of (nth_tok 1 f) in
   let subvars := ints (nth_tok 2 f) in
   let herr := as_int (nth_tok 3 f) in
@@ -190,17 +201,22 @@ Definition judge_pubsub (f : list tok) : Z :=
                || in_place pctor_s (snd (go_append h4 pctor_s (get_middleware h4 pprov_s))) in
   let o := pubsub nvars Z.eqb 0 (fun a => a) subvars pub_method sub_method herr args in
   let o_fresh := pubsub nvars Z.eqb 0 (fun a => a) subvars pub_method sub_method_fresh herr args in
+  if explain then encode_outcome o else
   if outcome_eqb o (nth_tok 14 f) (as_int (nth_tok 15 f)) (nth_tok 16 f)
-  then 1 + bit (is_panic o) 2 + bit wrote 4 + bit (negb (length poison =? 0)%nat) 8 + bit (delivered o) 16
+  then [1 + bit (is_panic o) 2 + bit wrote 4 + bit (negb (length poison =? 0)%nat) 8 + bit (delivered o) 16
        + bit (rewrites (nth_tok 4 f) || rewrites (nth_tok 5 f) || rewrites (nth_tok 8 f) || rewrites (nth_tok 10 f)) 32
-       + bit (negb (outcome_eqb o_fresh (nth_tok 14 f) (as_int (nth_tok 15 f)) (nth_tok 16 f))) 64
-  else -1.
+       + bit (negb (outcome_eqb o_fresh (nth_tok 14 f) (as_int (nth_tok 15 f)) (nth_tok 16 f))) 64]
+  else [-1].
 
-Definition judge_case (t : tok) : Z :=
+Definition judge_case (explain : bool) (t : tok) : list Z :=
   let f := as_list t in
   let kind := as_int (nth_tok 0 f) in
-  if kind =? 1 then judge_rpc f
-  else if kind =? 2 then judge_pubsub f
-  else -1.
+  if kind =? 1 then judge_rpc explain f
+  else if kind =? 2 then judge_pubsub explain f
+  else [-1].
 
-Definition judge (cases : list tok) : list Z := map judge_case cases.
+Definition judge (cases : list tok) : list Z := flat_map (judge_case false) cases.
+
+(** for replays of a rejected case: the model's own trace, flat:
+    per event kind, id/tag, number of values, the values; then -7, then 1 + results or 0 for a panic *)
+Definition explain (cases : list tok) : list Z := flat_map (judge_case true) cases.
